@@ -538,7 +538,7 @@ def _summarise(prop, results, tier, meta, seed, t0, workroot, write_baseline):
     for r in results:
         tag = {'ok': 'ok  ', 'failed': 'FAIL', 'undecided': 'UNDE', 'error': 'ERR '}[r.status]
         print('%s %-44s %4d obl %3d failed  %6.1fs  %s %s' % (tag, r.job.name, len(r.obligations), len(r.failed),
-              sum(r.secs.values()), r.job.klass, r.reason))
+              sum(v for k, v in r.secs.items() if k != 'cbmc_wall'), r.job.klass, r.reason))
         if os.environ.get('MV_PROFILE'):
             print('     slowest groups: %s' % sorted(r.group_secs, reverse=True)[:5])
         if r.status == 'error' and r.log:
@@ -570,3 +570,47 @@ def _summarise(prop, results, tier, meta, seed, t0, workroot, write_baseline):
             print('UNDECIDED property=%s job=%s: %s' % (prop, r.job.name, why))
         return 2
     return 0
+
+
+def contract_clauses(text, fn):
+    """(requires[], ensures[]) of the contract attached to the declaration of fn in a contracts header"""
+    m = re.search(r'(?m)^[^\n;{}#]*\b%s\s*\(' % re.escape(fn), text)
+    if not m:
+        raise ValueError('no declaration of %s' % fn)
+    i = text.index('(', m.start())
+    depth = 0
+    while True:
+        if text[i] == '(':
+            depth += 1
+        elif text[i] == ')':
+            depth -= 1
+            if depth == 0:
+                break
+        i += 1
+    j = i + 1
+    req, ens = [], []
+    while True:
+        mm = re.compile(r'\s*(?:/\*.*?\*/\s*)*(__CPROVER_requires|__CPROVER_ensures|__CPROVER_assigns|__CPROVER_frees|MV_FRAME|Q_FRAME\([^)]*\))', re.S).match(text, j)
+        if not mm:
+            break
+        kw = mm.group(1)
+        j = mm.end()
+        if kw.startswith('MV_FRAME') or kw.startswith('Q_FRAME'):
+            continue
+        k = text.index('(', j)
+        depth, e = 0, k
+        while True:
+            if text[e] == '(':
+                depth += 1
+            elif text[e] == ')':
+                depth -= 1
+                if depth == 0:
+                    break
+            e += 1
+        body = text[k + 1:e]
+        if kw == '__CPROVER_requires':
+            req.append(body)
+        elif kw == '__CPROVER_ensures':
+            ens.append(body)
+        j = e + 1
+    return req, ens
